@@ -269,6 +269,8 @@ pub fn c06_e2e(bin: &str, seed: u64, sessions: u64, valgrind_sessions: u64, asan
                     s.pump_until(move |s| idc2.iter().all(|id| s.reply(id).is_some()) || s.out_eof, Duration::from_secs(3));
                 }
                 calls.fetch_add(ids.len() as u64, std::sync::atomic::Ordering::Relaxed);
+                // neither the calls nor the ping answered: starved by load, or asleep (deadlock)?
+                let deadlocked = !responsive && !vg && !s.out_eof && s.asleep();
                 let died = s.out_eof || !s.alive();
                 let mut a = acc.lock().unwrap();
                 for (id, kind) in &ids {
@@ -280,6 +282,8 @@ pub fn c06_e2e(bin: &str, seed: u64, sessions: u64, valgrind_sessions: u64, asan
                                 a.inconclusive.push("call unanswered under valgrind within the slack".into());
                             } else if died {
                                 a.v(&format!("R06b|e2e-process-died|{kind}"), format!("plugin process ended; call {id} ({kind}) unanswered"));
+                            } else if deadlocked {
+                                a.v(&format!("R06c|e2e-deadlock|{kind}"), format!("call {id} ({kind}) and a later plain forward both unanswered after 40 s while every thread of the plugin process sleeps and consumes no CPU"));
                             } else if !responsive {
                                 a.inconclusive.push("session too slow: neither the call nor a later ping was answered (valgrind/load)".into());
                             } else {
@@ -1285,6 +1289,14 @@ pub fn pay_transport_sessions(bin: &str, seed: u64, slow_secs: &[u64], drops: u6
                         g.inconclusive.push("session too slow to judge".into());
                     } else if kind.as_deref() != Some("resolve") && pays <= 1 {
                         g.v("R02|e2e-not-settled-after-transport-error", format!("the accepted payment completed but the HTLC was answered {:?}", s.reply("x").map(|r| r["result"].to_string())));
+                        // the sender retries the failed-back set: is the paid invoice paid again?
+                        drop(g);
+                        s.send_doc(&hook("x-retry", tramp_request(&inv, 2, 1_005_000, 1_005_000, height + 1100, height)), 0);
+                        s.pump_for(Duration::from_millis(3000));
+                        g = acc.lock().unwrap();
+                        if s.pays_seen.len() > pays {
+                            g.v("R05|e2e-pay-again-after-the-accepted-payment-completed", format!("{} pay commands: the first was accepted and its part completed; the retried set was paid again", s.pays_seen.len()));
+                        }
                     }
                     for (sig, d) in std::mem::take(&mut s.node_violations) {
                         g.v(&sig, d);
